@@ -24,9 +24,9 @@ fn rel(quoted: U, limit: U) -> &'static str {
         "none"
     } else if limit == quoted {
         "at"
-    } else if limit + 1 == quoted {
+    } else if limit.checked_add(1) == Some(quoted) {
         "quote_minus_1"
-    } else if limit == quoted + 1 {
+    } else if Some(limit) == quoted.checked_add(1) {
         "quote_plus_1"
     } else if limit < quoted {
         "below"
